@@ -10,7 +10,8 @@ use super::*;
 use vstd::std_specs::ops::*;
 use core::ops::{Sub, Mul, Div, Rem, Neg};
 
-// dashu_base::Sign: enum and operators mirrored from base/src/sign.rs (bodies verified here against the spec fns)
+// dashu_base::Sign: enum mirrored from base/src/sign.rs (trusted to match); the operator bodies are the REAL
+// functions, extracted below as inherent methods Sign::{mul, neg} which the trait impls forward to.
 #[derive(Clone, Copy, PartialEq, Eq)]
 pub enum Sign { Positive, Negative }
 pub use Sign::*;
@@ -24,7 +25,7 @@ impl NegSpecImpl for Sign {
     open spec fn neg_spec(self) -> Sign { sign_neg(self) }
 }
 impl Neg for Sign { type Output = Sign;
-    fn neg(self) -> Sign { match self { Positive => Negative, Negative => Positive } }
+    fn neg(self) -> Sign { Sign::neg(self) }
 }
 impl MulSpecImpl<Sign> for Sign {
     open spec fn obeys_mul_spec() -> bool { true }
@@ -32,14 +33,7 @@ impl MulSpecImpl<Sign> for Sign {
     open spec fn mul_spec(self, rhs: Sign) -> Sign { sign_mul(self, rhs) }
 }
 impl Mul<Sign> for Sign { type Output = Sign;
-    fn mul(self, rhs: Sign) -> Sign {
-        match (self, rhs) {
-            (Positive, Positive) => Positive,
-            (Positive, Negative) => Negative,
-            (Negative, Positive) => Negative,
-            (Negative, Negative) => Positive,
-        }
-    }
+    fn mul(self, rhs: Sign) -> Sign { Sign::mul(self, rhs) }
 }
 
 // ---- integer/src/repr.rs: Repr (signed), TypedRepr / TypedReprRef (unsigned magnitude); abstract, value = v()
@@ -234,6 +228,10 @@ pub struct UBig(pub Repr);
 pub struct IBig(pub Repr);
 } // mod stub
 pub use stub::*;
+impl Sign {
+//@@ FN rational/sign/base_sign_mul.rs
+//@@ FN rational/sign/base_sign_neg.rs
+}
 broadcast use {stub::ax_repr_of, stub::ax_typed_nonneg, stub::ax_typedref_nonneg};
 
 // ---- the property's own sentences (C02), in signed mathematical integers ----
